@@ -384,6 +384,43 @@ def load_baseline(pid):
     return set(norm_name(n) for n in json.load(open(p)))
 
 
+def run_native_replay(o, replay_dir):
+    """The solver's counter-model replayed against the REAL code (pyvc/native_replay.py under /venv/bin/python, with
+    the tree under test on PYTHONPATH).  reproduced=True when the real function does what the counter-model
+    predicts: raises the exception class that must not escape, or returns the predicted value that violates the
+    clause."""
+    spec = o.get('replay')
+    if not spec:
+        return dict(reproduced=False, reason='entry state of the counter-model does not decode into plain Python data '
+                                             '(or the solver gave no model)')
+    repo = os.environ.get('PYVC_REPO', '/repo')
+    h = hashlib.sha256((o['name'] + str(o['path'])).encode()).hexdigest()[:12]
+    os.makedirs(replay_dir if os.path.isabs(replay_dir) else os.path.join(HERE, replay_dir), exist_ok=True)
+    sp = os.path.join(replay_dir if os.path.isabs(replay_dir) else os.path.join(HERE, replay_dir), '%s.input.json' % h)
+    with open(sp, 'w') as f:
+        json.dump(spec, f, indent=1)
+    env = dict(os.environ)
+    env['PYTHONPATH'] = repo
+    try:
+        p = subprocess.run(['/venv/bin/python', '-W', 'ignore', os.path.join(HERE, 'pyvc', 'native_replay.py'), sp],
+                           capture_output=True, text=True, timeout=60, env=env, cwd=repo)
+        lines = [l for l in p.stdout.strip().split('\n') if l.startswith('{')]
+        got = json.loads(lines[-1]) if lines else None
+    except Exception as e:
+        return dict(reproduced=False, reason='native replay failed: %s' % e, input=spec)
+    if got is None:
+        return dict(reproduced=False, reason='native replay printed nothing: %s' % (p.stderr or '')[-300:], input=spec)
+    pred = spec['predicted']
+    if pred['outcome'] == 'raised':
+        ok = got['outcome'] == 'raised' and (got['exc'] == pred['exc'] or pred['exc'] in got.get('mro', []))
+    elif 'value' in pred:
+        ok = got['outcome'] == 'returned' and got.get('value') == pred['value']
+    else:
+        ok = False
+    return dict(reproduced=bool(ok), input=spec['args'], predicted=pred, native=got, input_file=sp,
+                how='PYTHONPATH=<repo> /venv/bin/python pyvc/native_replay.py %s' % sp)
+
+
 _CLASSIFY = []
 
 
@@ -430,7 +467,7 @@ def classify_failure(pid, r, o, tier, replay_dir):
             json.dump(info, f, indent=1)
         return 'undecided', path
     info['counter_model'] = model
-    native = refute.native_replay_model(pid, r['key'], o, model)
+    native = run_native_replay(o, replay_dir)
     info['native'] = native
     verdict = 'violation' if native and native.get('reproduced') else 'violation-noinput'
     info['verdict'] = verdict
@@ -544,8 +581,22 @@ def main(argv):
     ap.add_argument('path', nargs='?')
     a = ap.parse_args(argv)
     if a.pid == 'replay':
+        # ./check replay <file>: show the recorded violation and, when it carries a decoded input, run the real
+        # function on it again (tree: $PYVC_REPO or /repo); exit 1 when the violation reproduces
         info = json.load(open(a.path))
-        print(json.dumps(info, indent=1)[:4000])
+        print(json.dumps({k: v for k, v in info.items() if k not in ('smt2_tail', 'counter_model', 'finite_scope')}, indent=1)[:6000])
+        nat = info.get('native') or {}
+        if isinstance(nat, dict) and nat.get('input') and nat.get('predicted'):
+            spec_file = nat.get('input_file')
+            if not (spec_file and os.path.exists(spec_file)):
+                print('input file of the native replay is gone: %s' % spec_file)
+                return 0
+            o = dict(name=info.get('obligation', ''), path=info.get('path_decisions', ''), replay=json.load(open(spec_file)))
+            again = run_native_replay(o, os.path.dirname(spec_file))
+            print('native replay now: reproduced=%s native=%s' % (again.get('reproduced'), again.get('native')))
+            return 1 if again.get('reproduced') else 0
+        if info.get('kind') == 'bounded stand-in':
+            return 1
         return 0
     seed = int(os.environ.get('VERIF_SEED', '0') or 0)
     return check_property(a.pid, a.tier if a.tier in ('quick', 'thorough') else 'quick', seed)
